@@ -83,7 +83,9 @@ func validSeq(s string, needCompact bool) bool {
 	if strings.HasSuffix(s, "w") {
 		return false
 	}
-	if strings.Contains(s, "oo") || strings.Contains(s, "cc") {
+	// (two restarts in a row are not the same as one: the first one makes every kv store write a manifest snapshot,
+	// the second one recovers from that snapshot - part h4 keeps them, three in a row add nothing)
+	if (strings.Contains(s, "oo") && !needCompact) || strings.Contains(s, "ooo") || strings.Contains(s, "cc") {
 		return false
 	}
 	pendingMem, unrolled, useful := 0, 0, false
@@ -132,7 +134,12 @@ func forEachCase(part string, thorough bool, f func(c *Case) bool) {
 		if thorough {
 			maxLen = 6
 		}
-		for _, steps := range sequences("Fcro", maxLen, true) {
+		seqs := sequences("Fcro", maxLen, true)
+		if !thorough {
+			// length 6-7, curated: a compacted source family, then two restarts before the first / a later rollup
+			seqs = append(seqs, "FFcoor", "FFcooFr", "FFcFoor", "FFcoorFr")
+		}
+		for _, steps := range seqs {
 			for _, p := range pos {
 				for _, shape := range []string{"full", "one-sum"} {
 					if !f(&Case{Part: part, Fam: "h4", Pos: p, Slots: "edges", Shape: shape, Steps: steps}) {
